@@ -293,9 +293,13 @@ def run(rep: vlib.Reporter, tier: str, seed: int) -> None:
             found = True
         else:
             dist["raised_with_message"] += 1
-        if c.get("executions", 1) > 1 and c["mode"] != "MULTIPROCESSING":
+        # several STEPS may calculate a feature of that name (a typed requested copy next to the untyped dependency): each step
+        # hands it to its calculation once
+        allowed = sum(1 for s_ in ((c.get("plan") or {}).get("steps") or []) if s_["kind"] == "FG" and s_.get("group") == c["fault"].get("group")
+                      and c["fault"].get("feature") in (s_.get("names") or [])) or 1
+        if c.get("executions", 1) > allowed and c["mode"] != "MULTIPROCESSING":
             rep.finding(f"reexecuted:{key}", f"fault {c['fault']} in {c['mode']}: the failing calculation was executed {c['executions']} times in one "
-                                             f"run (a failure is reported, not retried behind the caller's back)", c)
+                                             f"run by {allowed} step(s) (a failure is reported, not retried behind the caller's back)", c)
             found = True
         if c["mode"] == "SYNC" and not c["stream"] and c["plan"] is not None and c["fault"]["kind"] not in ("api_missing", "api_empty"):
             sync_idx.append(i)
